@@ -128,7 +128,7 @@ func (c AdditionalProperties) TypeName() bytes.Bytes {
 }
 
 func (c AdditionalProperties) IsEqual(c2 AdditionalProperties) bool {
-	return c.mode == c2.mode && c.schemaType == c2.schemaType && c.typeName.String() == c2.typeName.String()
+	return c.schemaType == c2.schemaType && c.typeName.String() == c2.typeName.String()
 }
 
 func (c AdditionalProperties) ASTNode() jschema.RuleASTNode {
